@@ -26,6 +26,10 @@ Local Open Scope Z_scope.
    source as it is now. *)
 Definition tp_src_stride_round : bool := match f_tp_stride_round with Some b => b | None => false end.
 Definition tp_src_lookback : bool := match f_tp_loop_lookback with Some b => b | None => false end.
+(* [ma] the form of TimePeriod::UpdateRegion (Tp/TpModel.v tp_update_region_ma): false = returns early when valid_end lies beyond
+   the requested end (pinned tree, finding stale-reference), true = still merges the referenced periods, cut off at valid_end
+   (repo_patches/C08-merge-references-every-round.diff) *)
+Definition tp_src_merge_always : bool := match f_tp_merge_always with Some b => b | None => false end.
 
 (* ---------------- civil calendar (proleptic Gregorian), days since 1970-01-01 ---------------- *)
 
